@@ -26,6 +26,13 @@ MANIFEST_ENTRY = {
     "technique": "Lean 4 proofs over the cost/crew/emission models + differential correspondence with the real classes + direct oracle (+ whole-run trace oracle)",
 }
 
+def C_configured(case):
+    from harness.adapters import crew as C
+    from harness.adapters import cost as K
+
+    return C.configured_crews(K.mday_case_to_day(case)[0])
+
+
 def C_req_json(q):
     from harness.adapters import crew as C
 
@@ -60,6 +67,7 @@ def random_mday(rng, size):
         per_day, per_site = rng.choice([-1, 0]), rng.choice([3, 64])
     if not stationary and crews == 0:
         crews = 1
+        opts = {k: v for k, v in opts.items() if k != "estimate"}
     return (cls, stationary, per_day, per_site, upfront, budget, crews, cw, reqs, opts)
 
 
@@ -103,7 +111,12 @@ def oracle_mday(ctx, case, r):
     if (r.cost_type, r.unit_cost) != (ct, unit):
         ctx.violate("C10:select:wrong-cost-type", "cost type / unit cost not as the cost parameters say", inp)
         return
-    n_crews = 1 if stationary else crews
+    # crews by the CONFIGURATION (crew_count; documented estimate only for crew_count 0), not by the object
+    n_crews = C_configured(case)
+    if len(r.crews) != n_crews:
+        ctx.violate("C10:crews:method-has-other-than-configured-crews",
+                    "the method was built with a number of crews different from the configured crew_count: upfront and "
+                    "crew-day costs are charged for crews the operator does not have", inp)
     if r.upfront != upfront * n_crews:
         ctx.violate("C10:upfront:not-upfront-times-crews", "method's upfront cost != configured upfront x crews", inp)
     by_site = {("s%d" % q[0]): q for q in reqs}
@@ -142,6 +155,10 @@ def oracle_mday(ctx, case, r):
             if idle:
                 ctx.count("mday:crew-deployed-without-travel")
             exp = unit * len(deployed)
+            if got > unit * n_crews and unit > 0:
+                ctx.violate("C10:per_day:more-crew-days-than-configured-crews",
+                            "per-day cost charges more crew-days than the method has crews by its configuration "
+                            "(got %s, configured crews %s x %s)" % (got, n_crews, unit), inp)
             if got != exp:
                 ctx.violate("C10:per_day:not-per-deployed-crew",
                             "per-day cost != unit cost x crews that visited a site (got %s, expected %s)" % (got, exp), inp)
@@ -517,6 +534,9 @@ def run(ctx):
                 "configurations. non-trivial = distinct (stage, class, cost type, outcome shape) keys")
     regenerate_tables(ctx)
     core.lean_stage(ctx, MODULE, FILE, drivers=["drv_cost", "drv_crew"])
+    from harness.props import _tie
+    _tie.crew_tie(ctx)  # layer 3: Method.survey_site, translated from the current source, is Crew.surveyStep/applyStep
+    _tie.emission_tie(ctx)  # layer 3: the EmisInfo repair counters of the emission classes (RE_update_info ...)
     stage_select(ctx)
     stage_constructs(ctx)
     stage_mday(ctx)
